@@ -607,6 +607,7 @@ def run(ctx):
         ctx.cov["translator"] = {k: info[k] for k in ("classes", "written_keys", "options", "cases", "sources")}
         ctx.cov["latent_not_demanded"] = info["latent"] + [f"{t['name']}::Deserialize pops {k} {x} only under a condition (empty name)"
                                                            for t in info["serializers"] for k, x in t["conditional_pops"]]
+        ctx.cov["shape_notes"] = info["shape_notes"]
         ctx.cov["serializer_sequences"] = {"classes": len(info["serializers"]), "pushes": sum(len(t["ser"]) for t in info["serializers"]),
                                            "asymmetric": [list(d) for d in info["ser_defects"]]}
     except gen_raw.TranslatorError as e:
